@@ -746,6 +746,21 @@ def make_backend(kind):
         from slimta.cloudstorage import CloudStorage
         from vp import storefakes
         return CloudStorage(storefakes.FakeObjectStore(_UuidHub())), (lambda: None)
+    if kind == 'shelve':
+        # the persistence the DictStorage docstring advertises: mappings that hand out COPIES
+        import tempfile, shutil, shelve
+        d = tempfile.mkdtemp(prefix='vp-queue-shelve-')
+        envs = shelve.open(d + '/env')
+        metas = shelve.open(d + '/meta')
+
+        def cleanup():
+            for sh in (envs, metas):
+                try:
+                    sh.close()
+                except Exception:
+                    pass
+            shutil.rmtree(d, ignore_errors=True)
+        return DictStorage(envs, metas), cleanup
     if kind == 'redis':
         import slimta.redisstorage as redismod
         from vp import storefakes
